@@ -987,3 +987,43 @@ def none_dereference(chk, c, rule):
                             work.append(d2)
     chk.ok(rule, 'branches that establish `x is None`: %d' % ntests, '', key='%s|scan' % rule)
     chk.floor('None-establishing branches examined', ntests, 40)
+
+
+def explicit_not_overwritten(chk, c, rule, skip=('reference', 'references')):
+    """`def f(.., p=None)` ... `if p is None: p = <default>` is how omitted arguments are resolved.  The rule: a parameter with
+    default None is re-bound (to something not computed from itself) only on paths on which it was found to be None / falsy;
+    anywhere else the caller's explicit argument would be thrown away."""
+    import ast
+    from ..cfg import cfg_of, ENTRY, edge_implies
+    from ..src import own_nodes, norm
+    ix = c.index
+    n = 0
+    for fq, fi in sorted(ix.functions.items()):
+        mn = fi.module.name
+        if mn.startswith('v2_') and not mn.endswith('base_datatypes'):
+            continue
+        a = fi.node.args
+        names = [z.arg for z in a.args]
+        defaults = {names[len(names) - len(a.defaults) + i]: d for i, d in enumerate(a.defaults)}
+        for p, d in sorted(defaults.items()):
+            if p in skip or not (isinstance(d, ast.Constant) and d.value is None):
+                continue
+            rebinds = [x for x in own_nodes(fi.node) if isinstance(x, ast.Assign) and any(norm(t) == p for t in x.targets)]
+            if not rebinds:
+                continue
+            g = cfg_of(fi)
+            pos, neg = ('%s is None' % p, 'not %s' % p), ('%s is not None' % p, p)
+
+            def unproven(src, dst, lab, g=g, pos=pos, neg=neg):
+                nd = g.nodes[src]
+                return not (nd.kind == 'test' and edge_implies(nd.ast, lab, pos, neg))
+            reach = g.reach(ENTRY, labels_ok=unproven)
+            for r in rebinds:
+                n += 1
+                derived = p in {x.id for x in ast.walk(r.value) if isinstance(x, ast.Name)}
+                bad = g.node_for(r) in reach and not derived
+                chk.ob(rule, '%s keeps an explicit `%s`' % (fq, p), not bad,
+                       '`%s` (line %d) can run when the caller passed a value for `%s`: the explicit argument is replaced' % (
+                           norm(r)[:60], r.lineno, p), '%s:%d' % (fi.module.relpath, r.lineno),
+                       key='%s|%s|%s|%s' % (rule, fq, p, norm(r.value)[:30]))
+    chk.floor('re-bindings of None-default parameters', n, 30)
